@@ -58,6 +58,23 @@ def gen_text(tag, off, n):
     return gen_bytes(tag, off, n).decode('latin-1').translate(_TXT)
 
 
+_mixed_cache = {}
+
+
+def mixed_stream(tag, need):
+    """UTF-8 encoding of the text stream `tag`, at least `need` bytes"""
+
+    cur = _mixed_cache.get(tag, b'')
+
+    if len(cur) < need + 4:
+        units = max(64, 2 * (need + 4))
+        cur = gen_text(tag, 0, units).encode('utf-8')
+        _mixed_cache.clear() if len(_mixed_cache) > 64 else None
+        _mixed_cache[tag] = cur
+
+    return cur
+
+
 def first_diff(a, b):
     n = min(len(a), len(b))
 
@@ -148,11 +165,16 @@ def gen_channel(rng, idx, srv_window, srv_pktsize, text, max_pkts=120):
 def gen_plan(rng, max_channels=4, rekey=False):
     srv_window = rng.choice([1, 3, 16, 100, 1000, 4096, 32768, 2097152])
     srv_pktsize = rng.choice([1, 2, 5, 64, 1000, 32768])
-    text = rng.chance(30)
+    text = rng.chance(35)
+    # mixed: the server side works in bytes (as a non-asyncssh peer or a
+    # program writing raw UTF-8 would), the client in text mode: multi-byte
+    # characters then get cut anywhere, also between a stdout and a stderr
+    # write
+    mixed = text and rng.chance(35)
     plan = {
         'drbg': rng.below(1 << 30),
         'profile': gen_profile(rng),
-        'text': text,
+        'text': text, 'mixed': mixed,
         'errors': rng.choice(['strict', 'strict', 'replace']),
         'srv_window': srv_window,
         'srv_pktsize': srv_pktsize,
@@ -162,6 +184,10 @@ def gen_plan(rng, max_channels=4, rekey=False):
         'closer': rng.choice(['client', 'server', 'both', 'conn']),
         'algs': {},
     }
+
+    for ch in plan['channels']:
+        ch['mixed'] = bool(mixed and ch['text'])
+
     return clamp_plan(plan)
 
 
@@ -232,7 +258,9 @@ class Endpoint:
         self.name = name
         self.ch = ch
         self.side = side
-        self.text = ch['text']
+        self.text = ch['text'] and not (ch.get('mixed') and side == 's')
+        self.mixed_bytes = bool(ch['text'] and ch.get('mixed') and
+                                side == 's')
         self.recv = {0: [], 1: []}
         self.eof = False
         self.eof_dt = {0: False, 1: False}
@@ -501,8 +529,14 @@ class ChanRun:
                 n, dt = op[1], op[2]
                 tag = '%s%d.%d' % (tagdir, i, dt)
                 off = ep.sent[dt]
-                data = gen_text(tag, off, n) if text else \
-                    gen_bytes(tag, off, n)
+
+                if ep.mixed_bytes:
+                    data = mixed_stream(tag, off + n)[off:off + n]
+                    self.sim.probes['mixed_mode_write'] += 1
+                else:
+                    data = gen_text(tag, off, n) if text else \
+                        gen_bytes(tag, off, n)
+
                 ep.sent[dt] += n
 
                 try:
@@ -515,6 +549,26 @@ class ChanRun:
                     ep.sent[dt] -= n
                     break
             elif op[0] == 'eof':
+                if ep.mixed_bytes:
+                    # finish a character that was cut before signalling EOF
+                    for dt in (0, 1):
+                        tag = '%s%d.%d' % (tagdir, i, dt)
+                        off = ep.sent[dt]
+                        full = mixed_stream(tag, off + 4)
+                        end = off
+
+                        while end < len(full) and \
+                                (full[end] & 0xc0) == 0x80:
+                            end += 1
+
+                        if end > off:
+                            try:
+                                chan.write(full[off:end],
+                                           *([STDERR] if dt else []))
+                                ep.sent[dt] = end
+                            except (OSError, asyncssh.Error):
+                                pass
+
                 try:
                     chan.write_eof()
                     ep.sent_eof = True
@@ -532,8 +586,9 @@ class ChanRun:
         algs = plan.get('algs') or {}
         tenc = dict(encoding='utf-8', errors=plan.get('errors', 'strict')) \
             if plan.get('text') else dict(encoding=None)
+        senc = dict(encoding=None) if plan.get('mixed') else tenc
         sopts = server_opts(window=plan['srv_window'],
-                            max_pktsize=plan['srv_pktsize'], **tenc, **algs)
+                            max_pktsize=plan['srv_pktsize'], **senc, **algs)
         sopts.update(self.extra_server_opts)
         copts = client_opts(**algs)
         copts.update(self.extra_client_opts)
@@ -670,6 +725,17 @@ class ChanRun:
                     tag = '%s%d.%d' % (tagdir, i, dt)
                     want = gen_text(tag, 0, n) if ch['text'] else \
                         gen_bytes(tag, 0, n)
+
+                    if ch['text'] and ch.get('mixed'):
+                        if wside == 'c':
+                            # text written, bytes received
+                            want = want.encode('utf-8')
+                        else:
+                            # n bytes written (possibly ending inside a
+                            # character), text received
+                            want = mixed_stream(tag, n)[:n].decode(
+                                'utf-8', 'ignore')
+
                     got = rep.joined(dt)
 
                     if got != want:
